@@ -147,7 +147,10 @@ type invalidKind struct {
 func c15Kinds() []invalidKind {
 	big := func(n int) string { return base64.StdEncoding.EncodeToString(make([]byte, n)) }
 	return []invalidKind{
-		{"missing_id", 400, func(r *vlib.Rand, cfg pubCfg, it pubItem, sc bool, _ string, _ []pubItem) bool { it["id"] = vlib.Pick(r, []string{"", "  "}); return true }},
+		{"missing_id", 400, func(r *vlib.Rand, cfg pubCfg, it pubItem, sc bool, _ string, _ []pubItem) bool {
+			it["id"] = vlib.Pick(r, []string{"", "  "})
+			return true
+		}},
 		{"route_missing", 400, func(r *vlib.Rand, cfg pubCfg, it pubItem, sc bool, _ string, _ []pubItem) bool {
 			if sc {
 				return false
@@ -254,8 +257,14 @@ func c15Kinds() []invalidKind {
 			it["headers"] = map[string]string{"X-Big": strings.Repeat("h", limit)}
 			return true
 		}},
-		{"bad_received_at", 400, func(r *vlib.Rand, cfg pubCfg, it pubItem, sc bool, _ string, _ []pubItem) bool { it["received_at"] = "yesterday"; return true }},
-		{"bad_next_run_at", 400, func(r *vlib.Rand, cfg pubCfg, it pubItem, sc bool, _ string, _ []pubItem) bool { it["next_run_at"] = "2026-13-45"; return true }},
+		{"bad_received_at", 400, func(r *vlib.Rand, cfg pubCfg, it pubItem, sc bool, _ string, _ []pubItem) bool {
+			it["received_at"] = "yesterday"
+			return true
+		}},
+		{"bad_next_run_at", 400, func(r *vlib.Rand, cfg pubCfg, it pubItem, sc bool, _ string, _ []pubItem) bool {
+			it["next_run_at"] = "2026-13-45"
+			return true
+		}},
 		{"duplicate_id_in_batch", 400, func(r *vlib.Rand, cfg pubCfg, it pubItem, sc bool, _ string, batch []pubItem) bool {
 			if len(batch) == 0 {
 				return false
